@@ -303,6 +303,10 @@ class PrecipitateModel (PrecipitateBase):
                     self.pData.xEqAlpha[self.pData.n,p] = c_eq_alpha
                     self.pData.xEqBeta[self.pData.n,p] = c_eq_beta
 
+        #Y was copied before the equilibrium compositions were set up, and the nucleation rate may need them (setBetaBinary(2))
+        Y.xEqAlpha[0] = self.pData.xEqAlpha[self.pData.n]
+        Y.xEqBeta[0] = self.pData.xEqBeta[self.pData.n]
+
         x = [self.PBM[p].PSD for p in range(len(self.phases))]
         Y = self._calcNucleationRate(self.pData.time[self.pData.n], x, Y)
         self.growth, Y = self._growthRate(Y)
